@@ -124,7 +124,8 @@ struct extractor_contract_3_no_opt<Index<Idx0...>, Index<Idx1...>, Index<Idx2...
               for(it = 0; it< c_dim; it++) {
                   index_c += products_c[it]*as[idx_c[it]];
               }
-              int index_out = as[idx_out[OutTensor::Dimension-1]];
+              // a full reduction has a rank-0 result and no output index to look up
+              int index_out = OutTensor::Dimension == 0 ? 0 : as[idx_out[OutTensor::Dimension == 0 ? 0 : OutTensor::Dimension-1]];
               for(it = 0; it< OutTensor::Dimension; it++) {
                   index_out += products_out[it]*as[idx_out[it]];
               }
@@ -276,7 +277,8 @@ struct extractor_contract_4_no_opt<Index<Idx0...>, Index<Idx1...>, Index<Idx2...
               for(it = 0; it< d_dim; it++) {
                   index_d += products_d[it]*as[idx_d[it]];
               }
-              int index_out = as[idx_out[OutTensor::Dimension-1]];
+              // a full reduction has a rank-0 result and no output index to look up
+              int index_out = OutTensor::Dimension == 0 ? 0 : as[idx_out[OutTensor::Dimension == 0 ? 0 : OutTensor::Dimension-1]];
               for(it = 0; it< OutTensor::Dimension; it++) {
                   index_out += products_out[it]*as[idx_out[it]];
               }
@@ -457,7 +459,8 @@ struct extractor_contract_5_no_opt<Index<Idx0...>, Index<Idx1...>, Index<Idx2...
               for(it = 0; it< e_dim; it++) {
                   index_e += products_e[it]*as[idx_e[it]];
               }
-              int index_out = as[idx_out[OutTensor::Dimension-1]];
+              // a full reduction has a rank-0 result and no output index to look up
+              int index_out = OutTensor::Dimension == 0 ? 0 : as[idx_out[OutTensor::Dimension == 0 ? 0 : OutTensor::Dimension-1]];
               for(it = 0; it< OutTensor::Dimension; it++) {
                   index_out += products_out[it]*as[idx_out[it]];
               }
@@ -651,7 +654,8 @@ struct extractor_contract_6_no_opt<Index<Idx0...>, Index<Idx1...>,
               for(it = 0; it< f_dim; it++) {
                   index_f += products_f[it]*as[idx_f[it]];
               }
-              int index_out = as[idx_out[OutTensor::Dimension-1]];
+              // a full reduction has a rank-0 result and no output index to look up
+              int index_out = OutTensor::Dimension == 0 ? 0 : as[idx_out[OutTensor::Dimension == 0 ? 0 : OutTensor::Dimension-1]];
               for(it = 0; it< OutTensor::Dimension; it++) {
                   index_out += products_out[it]*as[idx_out[it]];
               }
@@ -862,7 +866,8 @@ struct extractor_contract_7_no_opt<Index<Idx0...>, Index<Idx1...>,
               for(it = 0; it< g_dim; it++) {
                   index_g += products_g[it]*as[idx_g[it]];
               }
-              int index_out = as[idx_out[OutTensor::Dimension-1]];
+              // a full reduction has a rank-0 result and no output index to look up
+              int index_out = OutTensor::Dimension == 0 ? 0 : as[idx_out[OutTensor::Dimension == 0 ? 0 : OutTensor::Dimension-1]];
               for(it = 0; it< OutTensor::Dimension; it++) {
                   index_out += products_out[it]*as[idx_out[it]];
               }
@@ -1102,7 +1107,8 @@ struct extractor_contract_8_no_opt<Index<Idx0...>, Index<Idx1...>,
               for(it = 0; it< h_dim; it++) {
                   index_h += products_h[it]*as[idx_h[it]];
               }
-              int index_out = as[idx_out[OutTensor::Dimension-1]];
+              // a full reduction has a rank-0 result and no output index to look up
+              int index_out = OutTensor::Dimension == 0 ? 0 : as[idx_out[OutTensor::Dimension == 0 ? 0 : OutTensor::Dimension-1]];
               for(it = 0; it< OutTensor::Dimension; it++) {
                   index_out += products_out[it]*as[idx_out[it]];
               }
@@ -1364,7 +1370,8 @@ struct extractor_contract_9_no_opt<Index<Idx0...>, Index<Idx1...>,
               for(it = 0; it< h1_dim; it++) {
                   index_h1 += products_h1[it]*as[idx_h1[it]];
               }
-              int index_out = as[idx_out[OutTensor::Dimension-1]];
+              // a full reduction has a rank-0 result and no output index to look up
+              int index_out = OutTensor::Dimension == 0 ? 0 : as[idx_out[OutTensor::Dimension == 0 ? 0 : OutTensor::Dimension-1]];
               for(it = 0; it< OutTensor::Dimension; it++) {
                   index_out += products_out[it]*as[idx_out[it]];
               }
@@ -1639,7 +1646,8 @@ struct extractor_contract_10_no_opt<Index<Idx0...>, Index<Idx1...>,
               for(it = 0; it< h2_dim; it++) {
                   index_h2 += products_h2[it]*as[idx_h2[it]];
               }
-              int index_out = as[idx_out[OutTensor::Dimension-1]];
+              // a full reduction has a rank-0 result and no output index to look up
+              int index_out = OutTensor::Dimension == 0 ? 0 : as[idx_out[OutTensor::Dimension == 0 ? 0 : OutTensor::Dimension-1]];
               for(it = 0; it< OutTensor::Dimension; it++) {
                   index_out += products_out[it]*as[idx_out[it]];
               }
@@ -1932,7 +1940,8 @@ struct extractor_contract_11_no_opt<Index<Idx0...>, Index<Idx1...>,
               for(it = 0; it< h3_dim; it++) {
                   index_h3 += products_h3[it]*as[idx_h3[it]];
               }
-              int index_out = as[idx_out[OutTensor::Dimension-1]];
+              // a full reduction has a rank-0 result and no output index to look up
+              int index_out = OutTensor::Dimension == 0 ? 0 : as[idx_out[OutTensor::Dimension == 0 ? 0 : OutTensor::Dimension-1]];
               for(it = 0; it< OutTensor::Dimension; it++) {
                   index_out += products_out[it]*as[idx_out[it]];
               }
